@@ -106,6 +106,45 @@ def fresh_when_not_applicable():
     return o
 
 
+def fresh_two_args(which):
+    """the current method is not applicable to the new arguments because of a LATER argument (the first still matches)."""
+    o = Ovld(name="fresh2")
+
+    def fbb(x: B, y: B):
+        if which == "second_mismatch":
+            return ["BB"] + call_next(x, "s")  # (B, str): fbb is not applicable
+        if which == "first_mismatch":
+            return ["BB"] + call_next("s", y)
+        return ["BB"] + call_next(x, y)
+
+    def fas(x: A, y: str):
+        return ["A,str"]
+
+    def fsb(x: str, y: B):
+        return ["str,B"]
+
+    def faa(x: A, y: A):
+        return ["A,A"]
+
+    for g in (fbb, fas, fsb, faa):
+        o.register(g)
+    return o
+
+
+def fresh_keyword():
+    o = Ovld(name="freshk")
+
+    def fb(x: B, *, k: B):
+        return ["B,k=B"] + call_next(x, k="s")
+
+    def fs(x: A, *, k: str):
+        return ["A,k=str"]
+
+    for g in (fb, fs):
+        o.register(g)
+    return o
+
+
 def with_next():
     o = Ovld(name="nxt")
 
@@ -188,6 +227,10 @@ CASES = [
     ("linear_repeat", lambda: (lambda o: (o(C()), o(C()))[1])(linear()), ["C", "B", "A", "NOMETHOD"]),
     ("diamond_tie_below", lambda: diamond()(D()), ["D", "AMBIGUOUS"]),
     ("fresh_when_not_applicable", lambda: fresh_when_not_applicable()(C()), ["C", "A"]),
+    ("fresh_when_a_later_argument_does_not_match", lambda: fresh_two_args("second_mismatch")(B(), B()), ["BB", "A,str"]),
+    ("fresh_when_the_first_argument_does_not_match", lambda: fresh_two_args("first_mismatch")(B(), B()), ["BB", "str,B"]),
+    ("two_argument_chain", lambda: fresh_two_args("same")(B(), B()), ["BB", "A,A"]),
+    ("fresh_when_a_keyword_argument_does_not_match", lambda: fresh_keyword()(B(), k=B()), ["B,k=B", "A,k=str"]),
     ("next_equivalent", lambda: with_next()(C()), ["C", "B", "A"]),
     ("priority_then_specificity", lambda: priority_chain()(B()), ["hi", "B", "obj"]),
     ("nullary", lambda: nullary()(), "NOMETHOD"),
